@@ -444,8 +444,12 @@ def r_duplicate_field(i):
         n, d = i.g.choice(withf)
         _, owner, f = i.g.choice(i.idx.struct_all_fields(n, d))
         depth = len(i.idx.chain(n, d)) - [x[1] for x in i.idx.chain(n, d)].index(owner)
-        i.raw([(0, 'struct %s extends %s' % (i.fresh(), i.ref(n, d))), (1, '%s String?' % f['name'])])
-        return 'ancestor-depth-%d' % depth
+        # the clashing field first, in the middle or last among the child's own fields
+        taken = {x['name'] for _, _, x in i.idx.struct_all_fields(n, d)}
+        before = [(1, '%s Int32' % nm) for nm in ('zfa', 'zfb')[:i.g.int(0, 2)] if nm not in taken]
+        after = [(1, '%s String?' % nm) for nm in ('zfy', 'zfz')[:i.g.int(0, 2)] if nm not in taken]
+        i.raw([(0, 'struct %s extends %s' % (i.fresh(), i.ref(n, d)))] + before + [(1, '%s String?' % f['name'])] + after)
+        return 'ancestor-depth-%d%s' % (depth, '-not-first' if before else '')
     own = [(n, d) for n, d in structs if n == i.ns['name']]
     if kind == 'patch_own':
         withf = [(n, d) for n, d in own if d['fields'] and not d.get('patch')]
@@ -477,8 +481,11 @@ def r_duplicate_tag(i):
     n, d = i.g.choice(us)
     tag = i.g.choice(i.idx.union_all_tags(n, d, False))[2]
     kw = 'union' if i.idx.is_open(n, d) else i.g.choice(['union', 'union_closed'])
-    i.raw([(0, '%s %s extends %s' % (kw, i.fresh(), i.ref(n, d))), (1, tag['name'])])
-    return 'parent-depth-%d' % len(i.idx.chain(n, d))
+    taken = {x['name'] for _, _, x in i.idx.union_all_tags(n, d)}
+    before = [(1, nm) for nm in ('zta', 'ztb String')[:i.g.int(0, 2)] if nm.split()[0] not in taken]
+    after = [(1, nm) for nm in ('zty Int32', 'ztz')[:i.g.int(0, 2)] if nm.split()[0] not in taken]
+    i.raw([(0, '%s %s extends %s' % (kw, i.fresh(), i.ref(n, d)))] + before + [(1, tag['name'])] + after)
+    return 'parent-depth-%d%s' % (len(i.idx.chain(n, d)), '-not-first' if before else '')
 
 
 @rule
